@@ -444,7 +444,11 @@ def op_set(step, ctx):
             if step['part'] == 'value':
                 ev['val'] = [abs_scalar(x, ctx) for x in flatten(step['val'])]
                 ev['judge'] = not step['val'].get('nojudge', False)
-                attr.value = to_py(step['val'], ctx)
+                if step.get('inplace'):
+                    # the list the attribute hands out is extended in place; 'val' is the resulting list
+                    attr.value.extend([to_py(x, ctx) for x in step['inplace']])
+                else:
+                    attr.value = to_py(step['val'], ctx)
             else:
                 u = step['val']
                 ev['units'] = cps(to_py(u, ctx).value if u['t'] == 'enum' else u['v'])
